@@ -279,6 +279,31 @@ def check_jacdict_block(rng):
             if bad:
                 C.push(out, dict(what='the Jacobian of a model containing a user-supplied ragged JacobianDict block differs from the dense chain rule', input=dict(kind='jacdict-block', key_order=order, rotation=perm, entries=[list(b) if isinstance(b, tuple) else b for b in bad]),
                                  signature=dict(op='jacdict-block')))
+    # an ADDITIVE user-supplied block with IdentityMatrix entries (tot = cc + sv) downstream of dense Jacobians: the identity sits on the LEFT of the products in compose,
+    # every summand must keep its own Jacobian (requested together with the total), in every listing order, with and without saved Jacobians
+    from sequence_jacobian.classes.sparse_jacobians import IdentityMatrix
+    jd_ = JacobianDict({o: rows[o] for o in ('cc', 'sv')}, name='userblock')
+    addb = JacobianDict({'tot': {'cc': IdentityMatrix(), 'sv': IdentityMatrix()}}, name='adder')
+    exp = {('cc', 'z'): A @ w('y', 'z'), ('cc', 'e'): A @ w('y', 'e'), ('sv', 'z'): B @ w('y', 'z'), ('sv', 'e'): B @ w('y', 'e') + D}
+    exp[('tot', 'z')], exp[('tot', 'e')] = exp[('cc', 'z')] + exp[('sv', 'z')], exp[('cc', 'e')] + exp[('sv', 'e')]
+    for perm in (0, 2, 5):
+        blocks = list(m.BLOCKS) + [jd_, addb]
+        blocks = blocks[perm:] + blocks[:perm]
+        n += 1
+        try:
+            model = combine(blocks, name='withadder')
+            bad = []
+            for saved in (False, True):
+                kw = dict(Js=model.partial_jacobians(ss, ['z', 'e'], T=T)) if saved else {}
+                J = model.jacobian(ss, ['z', 'e'], ['cc', 'sv', 'tot'], T=T, **kw)
+                J2 = model.jacobian(ss, ['z', 'e'], ['cc', 'sv', 'tot'], T=T, **kw)
+                bad += [(k, 'saved' if saved else 'fresh') for k, v in exp.items() if np.abs(M.dense(J.nesteddict.get(k[0], {}).get(k[1], np.zeros((T, T))), T) - v).max() > 1e-9
+                        or np.abs(M.dense(J2.nesteddict.get(k[0], {}).get(k[1], np.zeros((T, T))), T) - v).max() > 1e-9]
+        except Exception as ex:
+            bad = [f'raised {type(ex).__name__}: {ex}']
+        if bad:
+            C.push(out, dict(what='a model with an additive user-supplied block (IdentityMatrix entries) downstream of dense Jacobians: a summand or the total differs from the dense chain rule', input=dict(kind='jacdict-block', adder=True, rotation=perm, entries=[str(b) for b in bad[:6]]),
+                             signature=dict(op='jacdict-adder')))
     return out, n
 
 
